@@ -105,6 +105,11 @@ def contract_call(ip, f, q, con, arguments):
             arguments[pn] = c.narrow(v.t, ty)
     a = spec_args(ip, arguments)
     s0 = SV(c.heap.snapshot())
+    lem = ip.w.call_lemmas.get((ip.frames[-1].qual, q))
+    if lem is not None:
+        from .loops import NS
+        for nm, fml in _clauses(lem(SV(c.heap0), s0, NS(ip, dict(ip.frames[-1].locals))), "lemma"):
+            c.assume(fml)
     pre = con.requires(s0, **a) if con.requires else True
     for nm, fml in _clauses(pre, "requires"):
         c.prove(f"{ip.frames[-1].qual}/call:{q.split(':')[1]}/{nm}", fml, kind="call-pre")
